@@ -7,6 +7,7 @@ import AnyVecModel.Proofs.KernelRange
 import AnyVecModel.Proofs.KernelDrainDrop
 import AnyVecModel.Proofs.KernelSpliceDrop
 import AnyVecModel.Props.Hist
+import AnyVecModel.Props.Refine
 namespace AnyVec
 namespace C02
 open World
@@ -126,45 +127,8 @@ theorem splice_drop_replaces (cfg : Cfg) (w : World) (it : RangeIt) (d d1 : VecS
       r.1.vis it.v = orig.take it.start ++ ids.map Cell.val ++ orig.drop it.end0 ∧
       (∀ u, u ≠ it.v → r.1.vis u = w.vis u) ∧
       r.1.dropLog = (d.idsRange it.index (it.end_ - it.index)).reverse ++ w.dropLog ∧
-      r.1.held = w.held ∧ r.1.created = w.created := by
-  have hlt : it.v < w.vecs.length := (List.getElem?_eq_some_iff.mp hv).1
-  have hidl := hpl.length_eq
-  obtain ⟨d3, he, hlen, _, _, hpre, hmid, hpost⟩ :=
-    spliceDrop_exec cfg w it d d1 es vals ids hpl hv hl hf h0 h1 h2 h3 h4 h5 h6 hsmall hres hinit
-  intro r orig
-  rw [show r = _ from he]
-  refine ⟨rfl, ?_, ?_, ?_, ?_, ?_⟩
-  · simp only [World.vis, List.getElem?_set_self hlt, VecSt.abs]
-    apply take_ext _ _ _ (by simp [orig]; omega) hlen
-    intro k hk
-    simp only [List.getElem?_append, List.length_take, List.length_map, List.getElem?_take, List.getElem?_map,
-      List.getElem?_drop, orig, List.length_append]
-    by_cases hk1 : k < it.start
-    · have hk' : k < d.cells.length := by omega
-      rw [hpre k hk1]
-      simp [hk1, Mem.get_eq, show min it.start (min it.origLen d.cells.length) = it.start by omega,
-        show k < it.origLen by omega, show k < it.start + ids.length by omega]
-    · by_cases hk2 : k < it.start + vals.length
-      · have := hmid (k - it.start) (by omega)
-        rw [show it.start + (k - it.start) = k by omega] at this
-        rw [this]
-        have hki : k - it.start < ids.length := by omega
-        simp [hk1, show min it.start (min it.origLen d.cells.length) = it.start by omega, hki, hidl,
-          show k < it.start + vals.length by omega, List.getD_eq_getElem?_getD, List.getElem?_eq_getElem hki]
-      · have := hpost (k - (it.start + vals.length)) (by omega)
-        rw [show it.start + vals.length + (k - (it.start + vals.length)) = k by omega] at this
-        rw [this]
-        have e1 : min it.start (min it.origLen d.cells.length) = it.start := by omega
-        have hk3 : ¬ k < it.start + ids.length := by omega
-        have hk4 : ¬ k < it.start + vals.length := hk2
-        simp only [e1, hk1, if_false, hidl, hk4, Mem.get_eq]
-        have e2 : it.end0 + (k - it.start - vals.length) < it.origLen := by omega
-        simp [e2, show it.end0 + (k - (it.start + vals.length)) = it.end0 + (k - it.start - vals.length) by omega]
-  · intro u hu
-    simp [World.vis, List.getElem?_set, Ne.symm hu]
-  · simp [World.logDrops_dropLog]
-  · simp
-  · simp
+      r.1.held = w.held ∧ r.1.created = w.created :=
+  spliceDrop_replaces cfg w it d d1 es vals ids hpl hv hl hf h0 h1 h2 h3 h4 h5 h6 hsmall hres hinit
 
 /-! non-vacuity -/
 def sampleVec : VecSt :=
@@ -236,6 +200,30 @@ theorem splice_drop_is_the_source (cfg : Cfg) (w : World) (it : RangeIt) (repl :
     (hv : w.vecs[it.v]? = some d) (hl : d.live = true) (hlen : d.len = it.start) :
     spliceDrop cfg it repl claimed w = KernelTie.spliceDropBySource cfg it repl claimed d w :=
   KernelTie.splice_drop_tie cfg w it repl claimed d hv hl hlen
+
+/-! ### `drain` and `splice` inside whole histories (Props/Refine.lean) -/
+
+/-- **`drain(a..b)` and `splice(a..b, k new values)` refine `Vec::drain` / `Vec::splice` in every history**: mixed in
+any order with the element-wise and capacity operations, from any world that shows an abstract vector, an unconsumed
+`drain(a..b)` leaves `take a ++ drop b` and an unconsumed `splice(a..b, …)` leaves `take a ++ new values ++ drop b` (for
+`a ≤ b ≤ len`; otherwise nothing changes but the offered values are destroyed), with the capacity kept when the result
+fits and grown only when it does not; the one alternative is the storage's refusal of the room `splice` asks for, which
+leaves the items before `a` (leak-on-panic). -/
+theorem range_ops_refine_in_histories (cfg : Cfg) (v ty : Nat) (ops : List Refine.VOp) (w : World) (s : Refine.Spec)
+    (h : Refine.Rel v ty w s) (hall : ∀ op ∈ ops, op.Allowed s.fixed) :
+    ∃ s', Refine.Spec.Steps s ops s' ∧ Refine.Rel v ty (Refine.runOps cfg v ty w ops) s' :=
+  Refine.history_refines cfg v ty ops w s h hall
+
+/-- a `splice` whose result fits the capacity has exactly one abstract outcome -/
+theorem splice_that_fits (s s' : Refine.Spec) (a b k : Nat) (hr : a ≤ b ∧ b ≤ s.items.length)
+    (hfit : a + k + (s.items.length - b) ≤ s.cap) (hsm : a + k + (s.items.length - b) ≤ USIZE_MAX)
+    (h : Refine.Spec.Step s (.splice a b k) s') :
+    s'.items = s.items.take a ++ List.range' s.next k ++ s.items.drop b ∧ s'.cap = s.cap ∧ s'.next = s.next + k := by
+  cases h with
+  | spliceFits _ _ _ _ _ => exact ⟨rfl, rfl, rfl⟩
+  | spliceGrow _ _ _ c _ hover _ _ => omega
+  | spliceRefused _ _ _ _ hover => omega
+  | spliceOut _ _ _ hno => exact (hno hr).elim
 
 end C02
 end AnyVec
